@@ -6,6 +6,7 @@ import (
 	"go/types"
 	"math"
 	"math/big"
+	"math/rand"
 	"os"
 	"os/exec"
 	"path/filepath"
@@ -648,32 +649,18 @@ func (rep *Report) corpusReplay(v *Violation, best *ObResult) {
 		}
 		doms = append(doms, d)
 	}
-	// cartesian product, capped
+	// cartesian product; when too large, a seeded sample of it
 	total := 1
 	for _, d := range doms {
 		total *= len(d)
-		if total > 4000 {
+		if total > 1<<30 {
+			total = 1 << 30
 			break
-		}
-	}
-	for total > 4000 {
-		// shrink the largest domain
-		bi := 0
-		for i, d := range doms {
-			if len(d) > len(doms[bi]) {
-				bi = i
-			}
-		}
-		doms[bi] = doms[bi][:len(doms[bi])-1]
-		total = 1
-		for _, d := range doms {
-			total *= len(d)
 		}
 	}
 	var cases [][]string
 	var caseVals [][]Value
-	idx := make([]int, len(doms))
-	for {
+	addCase := func(idx []int) {
 		var ex []string
 		var vs []Value
 		for i, d := range doms {
@@ -682,17 +669,39 @@ func (rep *Report) corpusReplay(v *Violation, best *ObResult) {
 		}
 		cases = append(cases, ex)
 		caseVals = append(caseVals, vs)
-		k := len(idx) - 1
-		for k >= 0 {
-			idx[k]++
-			if idx[k] < len(doms[k]) {
+	}
+	const maxCases = 3000
+	if total <= maxCases {
+		idx := make([]int, len(doms))
+		for {
+			addCase(idx)
+			k := len(idx) - 1
+			for k >= 0 {
+				idx[k]++
+				if idx[k] < len(doms[k]) {
+					break
+				}
+				idx[k] = 0
+				k--
+			}
+			if k < 0 {
 				break
 			}
-			idx[k] = 0
-			k--
 		}
-		if k < 0 {
-			break
+	} else {
+		rng := rand.New(rand.NewSource(int64(seedFromEnv())))
+		seen := map[string]bool{}
+		for tries := 0; len(cases) < maxCases && tries < maxCases*4; tries++ {
+			idx := make([]int, len(doms))
+			for i, d := range doms {
+				idx[i] = rng.Intn(len(d))
+			}
+			k := fmt.Sprint(idx)
+			if seen[k] {
+				continue
+			}
+			seen[k] = true
+			addCase(idx)
 		}
 	}
 	if len(cases) == 0 {
